@@ -220,6 +220,18 @@ impl Service<Req> for GateSvc {
 fn poll1<F: Future>(f: std::pin::Pin<&mut F>, cx: &mut Context<'_>) -> Poll<F::Output> {
     f.poll(cx)
 }
+/// the future is leaked: its drop glue (coroutine states holding Rc guards) is not the subject of
+/// any assertion and otherwise dominates symbolic execution
+fn leak_pin<F: Future>(f: F) -> std::pin::Pin<&'static mut F>
+where
+    F: 'static,
+{
+    unsafe { std::pin::Pin::new_unchecked(Box::leak(Box::new(f))) }
+}
+type GatePipe = Pipeline<InFlightServiceImpl<GateSvc>>;
+fn new_pipe(max_cap: u16, max_size: usize, gate: &Rc<Gate>) -> &'static GatePipe {
+    Box::leak(Box::new(Pipeline::new(InFlightServiceImpl::new(max_cap, max_size, GateSvc(gate.clone())))))
+}
 fn new_gate() -> Rc<Gate> {
     Rc::new(Gate { open: Cell::new(false), running: Cell::new(0), peak: Cell::new(0) })
 }
@@ -231,6 +243,7 @@ vharness! {
     //@ bounds: max_cap in 1..=2, max_size: usize and request sizes: u32 full width; two NON-publish requests with gated handlers, then completion of the first
     //@ assumes: wrapped service always ready; one caller (the connection's read loop)
     //@ desc: service-level gating for ordinary packets: readiness before each request equals the documented predicate over the invocations still running (reading stops rather than exceed the limits), never more than cap handlers at once, and when a handler finishes the parked reader is woken and readiness returns
+    //@ mem: 16  timeout: 900
     fn ct_gate_other() unwind(4) {
         let max_cap = vk::any_u16();
         vk::assume(max_cap >= 1 && max_cap <= 2);
@@ -238,26 +251,26 @@ vharness! {
         let s1 = vk::any_u32();
         let s2 = vk::any_u32();
         let gate = new_gate();
-        let p = Pipeline::new(InFlightServiceImpl::new(max_cap, max_size, GateSvc(gate.clone())));
+        let p = new_pipe(max_cap, max_size, &gate);
         let wakes: &'static Cell<u32> = Box::leak(Box::new(Cell::new(0)));
         let waker = counting_waker(wakes);
         let mut cx = Context::from_waker(&waker);
         let z = |s: u32| if max_size > 0 { s as usize } else { 0 };
         // request 1
         {
-            let mut r = std::pin::pin!(p.ready::<Req>());
+            let mut r = leak_pin(p.ready::<Req>());
             assert!(poll1(r.as_mut(), &mut cx).is_ready());
         }
-        let mut f1 = std::pin::pin!(p.call(Req { kind: Kind::Other, size: s1 }));
+        let mut f1 = leak_pin(p.call(Req { kind: Kind::Other, size: s1 }));
         assert!(poll1(f1.as_mut(), &mut cx).is_pending());
         assert!(gate.running.get() == 1);
         // request 2: admitted iff the counter says so
         let avail1 = spec_available(max_cap, 1, max_size, z(s1));
-        let mut r2 = std::pin::pin!(p.ready::<Req>());
+        let mut r2 = leak_pin(p.ready::<Req>());
         let ready2 = poll1(r2.as_mut(), &mut cx).is_ready();
         assert!(ready2 == avail1, "readiness differs from the documented limit predicate");
         if ready2 {
-            let mut f2 = std::pin::pin!(p.call(Req { kind: Kind::Other, size: s2 }));
+            let mut f2 = leak_pin(p.call(Req { kind: Kind::Other, size: s2 }));
             assert!(poll1(f2.as_mut(), &mut cx).is_pending());
             assert!(gate.running.get() == 2);
             assert!(gate.peak.get() as u16 <= max_cap, "more handlers at once than max_receive");
@@ -280,27 +293,28 @@ vharness! {
     //@ props: C12
     //@ tier: quick
     //@ functions: inflight::InFlightServiceImpl::{ready, call} (streaming bypass: the `publish` flag), Counter
-    //@ bounds: max_cap = 1; a PUBLISH whose handler is gated, followed by 0..=3 payload chunks, readiness polled before each; sizes full width
+    //@ bounds: max_cap = 1; byte limit off (0) or 1 byte; a PUBLISH (size u32 full width) whose handler is gated, followed by 0..=3 payload chunks, readiness polled before each
     //@ assumes: wrapped service always ready; one caller
     //@ desc: while a payload is being streamed the remaining chunks are never held back by the limit (readiness stays true before every chunk, chunks are delivered), although the handler that reads them is the one occupying the limit
+    //@ mem: 16  timeout: 900
     fn ct_gate_stream() unwind(5) {
-        let max_size = vk::any_usize();
+        let max_size = if vk::any_bool() { 0usize } else { 1usize };
         let gate = new_gate();
-        let p = Pipeline::new(InFlightServiceImpl::new(1, max_size, GateSvc(gate.clone())));
+        let p = new_pipe(1, max_size, &gate);
         let wakes: &'static Cell<u32> = Box::leak(Box::new(Cell::new(0)));
         let waker = counting_waker(wakes);
         let mut cx = Context::from_waker(&waker);
-        let mut f1 = std::pin::pin!(p.call(Req { kind: Kind::Publish, size: vk::any_u32() }));
+        let mut f1 = leak_pin(p.call(Req { kind: Kind::Publish, size: vk::any_u32() }));
         assert!(poll1(f1.as_mut(), &mut cx).is_pending());
         assert!(gate.running.get() == 1);
         let n = vk::any_len(3);
         let mut i = 0;
         while i < n {
             {
-                let mut r = std::pin::pin!(p.ready::<Req>());
+                let mut r = leak_pin(p.ready::<Req>());
                 assert!(poll1(r.as_mut(), &mut cx).is_ready(), "payload chunk held back by the receive limit");
             }
-            let mut c = std::pin::pin!(p.call(Req { kind: Kind::Chunk, size: 0 }));
+            let mut c = leak_pin(p.call(Req { kind: Kind::Chunk, size: 0 }));
             assert!(poll1(c.as_mut(), &mut cx).is_ready(), "payload chunk not delivered");
             i += 1;
         }
@@ -316,18 +330,19 @@ vharness! {
     //@ assumes: wrapped service always ready; one caller
     //@ finding: known K3: `ready()` bypasses the counter while the `publish` flag is set, and `call()` sets it for EVERY publish (SizedRequest::is_publish is true for complete publishes too): the packet after a publish is never gated, so a burst of publishes runs more handlers at once than max_receive
     //@ desc: documents the recorded finding K3: with max_receive = 1 and a first publish handler still running, reading must stop before the second PUBLISH
+    //@ mem: 16  timeout: 900
     fn ct_gate_publish_burst() unwind(4) {
         let gate = new_gate();
-        let p = Pipeline::new(InFlightServiceImpl::new(1, 0, GateSvc(gate.clone())));
+        let p = new_pipe(1, 0, &gate);
         let wakes: &'static Cell<u32> = Box::leak(Box::new(Cell::new(0)));
         let waker = counting_waker(wakes);
         let mut cx = Context::from_waker(&waker);
-        let mut f1 = std::pin::pin!(p.call(Req { kind: Kind::Publish, size: vk::any_u32() }));
+        let mut f1 = leak_pin(p.call(Req { kind: Kind::Publish, size: vk::any_u32() }));
         assert!(poll1(f1.as_mut(), &mut cx).is_pending());
-        let mut r2 = std::pin::pin!(p.ready::<Req>());
+        let mut r2 = leak_pin(p.ready::<Req>());
         let ready2 = poll1(r2.as_mut(), &mut cx).is_ready();
         if ready2 {
-            let mut f2 = std::pin::pin!(p.call(Req { kind: Kind::Publish, size: vk::any_u32() }));
+            let mut f2 = leak_pin(p.call(Req { kind: Kind::Publish, size: vk::any_u32() }));
             let _ = poll1(f2.as_mut(), &mut cx);
             assert!(gate.peak.get() <= 1, "more publish handlers at once than max_receive");
         }
